@@ -6,6 +6,7 @@ import (
 	"fmt"
 	"reflect"
 	"sort"
+	"strings"
 	"time"
 
 	corev1 "k8s.io/api/core/v1"
@@ -37,6 +38,7 @@ const (
 type SimAPI struct {
 	Inner  client.WithWatch
 	Client client.WithWatch
+	Direct client.WithWatch
 	Run    *Run
 	// Decide picks the fault for a call ("get", "list", "create", "update", "patch", "delete",
 	// "status-update", "status-patch"); nil means no faults.
@@ -84,6 +86,22 @@ func NewSimAPI(run *Run, scheme *runtime.Scheme, statusSubresources []client.Obj
 	}
 	a := &SimAPI{Run: run, Calls: map[string]int{}}
 	a.Inner = b.Build()
+	// Direct: the same API server with the same faults, reads not through the informer cache
+	// (for parties that ask the API server itself, e.g. client-go Get calls)
+	a.Direct = interceptor.NewClient(a.Inner, interceptor.Funcs{
+		Get: func(ctx context.Context, c client.WithWatch, key client.ObjectKey, obj client.Object, opts ...client.GetOption) error {
+			return a.getx(true, ctx, c, key, obj, opts...)
+		},
+		List: func(ctx context.Context, c client.WithWatch, list client.ObjectList, opts ...client.ListOption) error {
+			return a.listx(true, ctx, c, list, opts...)
+		},
+		Create:            a.create,
+		Delete:            a.delete,
+		Update:            a.update,
+		Patch:             a.patch,
+		SubResourceUpdate: a.subUpdate,
+		SubResourcePatch:  a.subPatch,
+	})
 	a.Client = interceptor.NewClient(a.Inner, interceptor.Funcs{
 		Get:               a.get,
 		List:              a.list,
@@ -125,6 +143,10 @@ func conflictErr(obj client.Object) error {
 }
 
 func (a *SimAPI) get(ctx context.Context, c client.WithWatch, key client.ObjectKey, obj client.Object, opts ...client.GetOption) error {
+	return a.getx(false, ctx, c, key, obj, opts...)
+}
+
+func (a *SimAPI) getx(direct bool, ctx context.Context, c client.WithWatch, key client.ObjectKey, obj client.Object, opts ...client.GetOption) error {
 	simrt.Yield("api.get")
 	switch a.decide("get", obj) {
 	case APIErrBefore, APIErrAfter:
@@ -132,8 +154,8 @@ func (a *SimAPI) get(ctx context.Context, c client.WithWatch, key client.ObjectK
 		a.Run.S.Log("api", "get %s %s -> injected error", kindOf(obj), key.Name)
 		return injected("get")
 	}
-	if a.cacheOn {
-		if v, ok := a.cached(kindOf(obj), key); ok {
+	if a.cacheOn && !direct {
+		if v, ok := a.cached(tkey(obj), key); ok {
 			if v == nil {
 				a.Run.S.Log("api", "get %s %s -> not in cache", kindOf(obj), key.Name)
 				return apierrors.NewNotFound(schema.GroupResource{Resource: kindOf(obj)}, key.Name)
@@ -149,6 +171,10 @@ func (a *SimAPI) get(ctx context.Context, c client.WithWatch, key client.ObjectK
 }
 
 func (a *SimAPI) list(ctx context.Context, c client.WithWatch, list client.ObjectList, opts ...client.ListOption) error {
+	return a.listx(false, ctx, c, list, opts...)
+}
+
+func (a *SimAPI) listx(direct bool, ctx context.Context, c client.WithWatch, list client.ObjectList, opts ...client.ListOption) error {
 	simrt.Yield("api.list")
 	switch a.decide("list", list) {
 	case APIErrBefore, APIErrAfter:
@@ -190,7 +216,7 @@ func (a *SimAPI) list(ctx context.Context, c client.WithWatch, list client.Objec
 		}
 		items = kept
 	}
-	if a.cacheOn {
+	if a.cacheOn && !direct {
 		items = a.mergeCached(list, items, lo, rawField)
 	}
 	// canonical order, then a seeded permutation
@@ -288,6 +314,22 @@ func (a *SimAPI) EnableCache(lag func(kind string) time.Duration, onDeliver func
 	a.wake = make(chan struct{}, 1)
 }
 
+// Peek reads an object the way a cached read would (delivered version, or the API server for
+// objects the cache machinery has not seen a write for) without being a scheduling point.
+func (a *SimAPI) Peek(obj client.Object) bool {
+	key := client.ObjectKeyFromObject(obj)
+	if a.cacheOn {
+		if v, ok := a.cached(tkey(obj), key); ok {
+			if v == nil {
+				return false
+			}
+			copyInto(v, obj)
+			return true
+		}
+	}
+	return a.Inner.Get(context.Background(), key, obj) == nil
+}
+
 // ResetCache is a restart of the process that owns the informers: the next reads list from the
 // API server again, undelivered changes are dropped with the old watch.
 func (a *SimAPI) ResetCache() {
@@ -300,6 +342,31 @@ func (a *SimAPI) ResetCache() {
 
 func ckey(kind string, key client.ObjectKey) string {
 	return kind + "/" + key.Namespace + "/" + key.Name
+}
+
+// tkey names an object's Go type including its package (two API groups have a kind Node).
+func tkey(obj runtime.Object) string {
+	t := reflect.TypeOf(obj)
+	for t.Kind() == reflect.Pointer {
+		t = t.Elem()
+	}
+	return t.PkgPath() + "." + t.Name()
+}
+
+// tkeyOfItems names the item type of a list object.
+func tkeyOfItems(list runtime.Object) string {
+	t := reflect.TypeOf(list)
+	for t.Kind() == reflect.Pointer {
+		t = t.Elem()
+	}
+	if f, ok := t.FieldByName("Items"); ok {
+		it := f.Type.Elem()
+		for it.Kind() == reflect.Pointer {
+			it = it.Elem()
+		}
+		return it.PkgPath() + "." + it.Name()
+	}
+	return ""
 }
 
 func (a *SimAPI) cached(kind string, key client.ObjectKey) (client.Object, bool) {
@@ -327,7 +394,7 @@ func (a *SimAPI) prefetch(obj client.Object) {
 	if !a.cacheOn {
 		return
 	}
-	k := ckey(kindOf(obj), client.ObjectKeyFromObject(obj))
+	k := ckey(tkey(obj), client.ObjectKeyFromObject(obj))
 	if a.known[k] {
 		return
 	}
@@ -340,8 +407,8 @@ func (a *SimAPI) observe(obj client.Object) {
 	if !a.cacheOn {
 		return
 	}
-	kind, key := kindOf(obj), client.ObjectKeyFromObject(obj)
-	at := time.Now().Add(a.Lag(kind))
+	kind, key := tkey(obj), client.ObjectKeyFromObject(obj)
+	at := time.Now().Add(a.Lag(kindOf(obj)))
 	if at.Before(a.lastAt[kind]) {
 		at = a.lastAt[kind]
 	}
@@ -396,7 +463,7 @@ func (a *SimAPI) pump() {
 			a.Run.S.Log("informer", "%s %s rv=%s", d.kind, d.key.Name, d.obj.GetResourceVersion())
 		}
 		if a.OnDeliver != nil {
-			a.OnDeliver(d.kind, d.key, d.obj)
+			a.OnDeliver(d.kind[strings.LastIndex(d.kind, ".")+1:], d.key, d.obj)
 		}
 		simrt.Yield("informer")
 	}
@@ -404,10 +471,7 @@ func (a *SimAPI) pump() {
 
 // mergeCached replaces what a List read from the API server by what the cache holds.
 func (a *SimAPI) mergeCached(list client.ObjectList, items []runtime.Object, lo *client.ListOptions, rawField fields.Selector) []runtime.Object {
-	kind := kindOf(list)
-	if n := len(kind); n > 4 && kind[n-4:] == "List" {
-		kind = kind[:n-4]
-	}
+	kind := tkeyOfItems(list)
 	keep := func(o client.Object) bool {
 		if lo.Namespace != "" && o.GetNamespace() != lo.Namespace {
 			return false
@@ -448,7 +512,7 @@ func (a *SimAPI) mergeCached(list client.ObjectList, items []runtime.Object, lo 
 	sort.Strings(ks)
 	for _, k := range ks {
 		v := a.cache[k]
-		if v == nil || seen[k] || kindOf(v) != kind || !keep(v) {
+		if v == nil || seen[k] || tkey(v) != kind || !keep(v) {
 			continue
 		}
 		out = append(out, v.DeepCopyObject())
